@@ -349,8 +349,10 @@ Definition spec_ok (c : case) : bool :=
   end.
 """
 MARK = {"plain": "MPlain", "opt": "MOpt", "optnone": "MOptNone"}
-KIND = {"value": "KValue", "string": "KString", "bool": "KBool", "int": "KInt", "int8": "KInt8", "uint8": "KUint8", "float": "KFloat",
-        "list": "KList", "dict": "KDict", "callable": "KCallable", "iterable": "KIterable"}
+KIND = {"value": "KValue", "string": "KString", "bool": "KBool", "int": "KInt", "int8": "KInt8", "int16": "KInt16", "int32": "KInt32",
+        "int64": "KInt64", "uint": "KUint", "uint8": "KUint8", "uint16": "KUint16", "uint32": "KUint32", "uint64": "KUint64",
+        "uintptr": "KUint64", "float": "KFloat", "list": "KList", "dict": "KDict", "callable": "KCallable", "iterable": "KIterable",
+        "unpacker": "KUnpacker", "tuplev": "KTupleV", "intv": "KIntV"}
 VT = {"none": "TNone", "bool": "TBool", "float": "TFloat", "string": "TString", "list": "TList", "dict": "TDict",
       "tuple": "TTuple", "func": "TFunc"}
 UERR = {"toomany": "UTooManyPositional", "toofew": "UTooFewPositional", "kwargs": "UKwargsNotAllowed",
@@ -446,7 +448,7 @@ def unpack_finish(ctx, summary, terms, refs, bad_model, bad_spec):
         "unpack_distribution": summary["dist"], "unpack_fraction": summary["frac"], "unpack_coq_cases": len(terms),
         "unpack_model_mismatches": len(bad_model), "unpack_spec_mismatches": len(bad_spec),
         "unpack_go_spec_mismatches": summary["mismatches"],
-        "unpack_rule": "all parameter lists of <=3 parameters x marker (name, name?, name??) x target kind (11 kinds for the first parameter incl. an unsigned one, 6 for the others; quick: a seeded 1% of the lists; thorough: all lists) x calls with 0..4 positional arguments, every subset of declared names plus an undeclared one as keywords (two orders), without and with a duplicated keyword (first, last and undeclared name), argument types drawn (seeded) from None/bool/small int/large int/negative int/2^70/float/string/list/dict/tuple/function, half of the time a type the parameter accepts; UnpackPositionalArgs: all kind lists <=3 x min x 0..4 arguments x with/without keywords. Targets are pre-filled with sentinels and read back.",
+        "unpack_rule": "all parameter lists of <=3 parameters x marker (name, name?, name??) x target kind (22 kinds = every case of the type switch in unpackArgNoEscape and AsInt: Value, string, bool, int/int8/16/32/64, uint/uint8/16/32/64/uintptr, float64, *List, *Dict, Callable, Iterable, an Unpacker implementation, and the reflection path with starlark.Tuple and starlark.Int variables; all kinds in every position: every list of <=2 parameters, and 3-parameter lists whose third parameter ranges over all kinds; every target pre-filled with a sentinel and read back after every call, failed or not; integer targets get their boundary values min-1, min, min+1, -1, 0, max-1, max, max+1, +-2^bits, 2^bits+1, +-2^70 half of the time; quick: a seeded 1% of the lists; thorough: all lists) x calls with 0..4 positional arguments, every subset of declared names plus an undeclared one as keywords (two orders), without and with a duplicated keyword (first, last and undeclared name), argument types drawn (seeded) from None/bool/small int/large int/negative int/2^70/float/string/list/dict/tuple/function, half of the time a type the parameter accepts; UnpackPositionalArgs: all kind lists <=3 x min x 0..4 arguments x with/without keywords. Targets are pre-filled with sentinels and read back.",
         "unpack_samples": [ucase_src(c) + " -> " + json.dumps(c["obs"]) for c in refs[:3]],
     }
 
